@@ -345,12 +345,31 @@ func c05(c *Ctx) {
 				r.Bad("C05.R3", cons, p.Pos(posOf(ret)), "Result() returns an element of something other than the receiver's result list")
 				continue
 			}
+			// the index may be one value per path merged in a phi (single exit): decide each incoming edge on its own
+			type icase struct {
+				idx   ssa.Value
+				gs    []Guard
+				at    *ssa.BasicBlock // block whose end the case leaves from (for "an add was passed")
+				label string
+			}
+			cases := []icase{{ia.Index, guardsAt(ret.Block()), ret.Block(), ""}}
+			if ph, isPhi := resolveLocal(ia.Index).(*ssa.Phi); isPhi && len(ph.Edges) >= 2 && len(ph.Edges) <= 6 && (ph.Block() == ret.Block() || ph.Block().Dominates(ret.Block())) {
+				cases = nil
+				for ei, e := range ph.Edges {
+					pred := ph.Block().Preds[ei]
+					gs := append(append([]Guard{}, knownAtEdge(pred, ph.Block())...), guardsAt(ret.Block())...)
+					cases = append(cases, icase{e, gs, pred, fmt.Sprintf(" way#%d", ei)})
+				}
+			}
+			baseCons := cons
+			for _, cs := range cases {
+			cons := baseCons + cs.label
 			m := NewDBM()
 			axioms(m)
-			guardsToDBM(m, k, ret.Block())
-			idx := k.TermOf(ia.Index)
+			guardListToDBM(m, k, cs.gs)
+			idx := k.TermOf(cs.idx)
 			// plain cursor load on the fast path: cursor==0 there by I1 (checked above)
-			if ul, ok := peel(ia.Index).(*ssa.UnOp); ok && ul.Op == token.MUL && isCur(ul.X) {
+			if ul, ok := peel(cs.idx).(*ssa.UnOp); ok && ul.Op == token.MUL && isCur(ul.X) {
 				if m.EntailsLE(n, Term{"", 1}) {
 					m.AddLE(idx, Term{"", 0})
 					m.AddLE(Term{"", 0}, idx)
@@ -364,7 +383,7 @@ func c05(c *Ctx) {
 			advancing := false
 			var domAdd ssa.Instruction
 			for _, a := range adds {
-				if domInstr(a, ret) {
+				if (cs.label == "" && domInstr(a, ret)) || (cs.label != "" && (a.Block() == cs.at || a.Block().Dominates(cs.at))) {
 					advancing, domAdd = true, a
 				}
 			}
@@ -383,6 +402,7 @@ func c05(c *Ctx) {
 				last := m.EntailsLE(Term{n.Var, n.K - 1}, idx)
 				r.Check(last, "C05.R3", cons+" serves last element", p.Pos(posOf(ret)), "non-advancing path serves the last element",
 					"a path that does not advance the cursor serves an element other than the last one: the sequence does not stick at its last element")
+			}
 			}
 		}
 	}
